@@ -73,13 +73,25 @@ Theorem C17_date_trunc_week_refuted : forall t, rewritten_value (DT UWeek) t <> 
 Proof. exact date_trunc_week_refuted. Qed.
 Print Assumptions C17_date_trunc_week_refuted.
 
-(* An origin with a fractional second (Go's time.Parse accepts one in every layout, Unix()
-   drops it) shifts every bucket: wrong on EVERY row. *)
-Theorem C17_origin_fraction_refuted : forall n u o t,
+(* An origin with a fractional second (Go's time.Parse accepts one in every layout) is no longer
+   rewritten since 10b4db8: the call is left to DuckDB, so its value is DuckDB's on every row. *)
+Theorem C17_origin_fraction_unrewritten : forall n u o t,
+  o mod MICROS <> 0 ->
+  rewrite_texpr (TB3 n u o) = EUnch /\ rewritten_value (TB3 n u o) t = eval_orig (TB3 n u o) t.
+Proof.
+  intros n u o t H. pose proof (origin_fraction_unrewritten n u o H) as E.
+  split; [exact E|apply unrewritten_eq; exact E].
+Qed.
+Print Assumptions C17_origin_fraction_unrewritten.
+
+(* Why the guard is needed (regression witness of the fixed finding): the epoch arithmetic around
+   the truncated origin, which the code emitted before, is wrong on EVERY row. *)
+Theorem C17_origin_fraction_guard_needed : forall n u o t,
   u <> UMonth -> 0 < n -> n * unit_seconds u < 2 ^ 63 -> o mod MICROS <> 0 ->
-  rewritten_value (TB3 n u o) t <> eval_orig (TB3 n u o) t.
-Proof. exact origin_fraction_refuted. Qed.
-Print Assumptions C17_origin_fraction_refuted.
+  eval_emitted (E3 (o / MICROS) (o / MICROS) (n * unit_seconds u) (n * unit_seconds u)) (TB3 n u o) t
+  <> eval_orig (TB3 n u o) t.
+Proof. exact origin_fraction_would_differ. Qed.
+Print Assumptions C17_origin_fraction_guard_needed.
 
 (* Dropping hypothesis (3): 2024-01-10 00:59:59.6, date_trunc('hour'): DuckDB 00:00, rewrite 01:00;
    every other hypothesis holds. *)
@@ -192,55 +204,51 @@ Proof. vm_compute. repeat split; reflexivity. Qed.
 (* LIKE / empty-string predicate reordering                                              *)
 (* ------------------------------------------------------------------------------------ *)
 
-(* A WHERE clause without a top-level OR (one AND chain whose operands may be negated atoms or
-   arbitrary parenthesised AND/OR/NOT trees) that does not start with the string-literal-blind
-   trigger (col LIKE 'p' AND col2 <> 'literal starting with a quote'): OptimizeLikePatterns keeps
-   the three-valued result on EVERY row, hence the filter decision. *)
-Theorem C17_like_no_or_sound : forall r ch tail, quote_trigger [ch] = false ->
-  eval_clause r (optimize [ch] tail) = eval_clause r [ch] /\
-  keeps r (optimize [ch] tail) = keeps r [ch].
-Proof. intros. split; [apply like_no_or_sound|apply keeps_no_or]; assumption. Qed.
-Print Assumptions C17_like_no_or_sound.
+(* OptimizeLikePatterns (since e6f4be8: the trailing empty check is not moved across the word OR,
+   and `col <> ''` is not recognised inside a literal that starts with a quote) keeps the
+   three-valued result of EVERY WHERE clause - any mix of AND / OR / NOT / parentheses over the
+   five atom kinds - on EVERY row, hence the filter decision. *)
+Theorem C17_like_sound : forall r cl tail,
+  eval_clause r (optimize cl tail) = eval_clause r cl /\ keeps r (optimize cl tail) = keeps r cl.
+Proof. intros. split; [apply optimize_sound|apply keeps_sound]. Qed.
+Print Assumptions C17_like_sound.
 
-(* The first reordering alone (swap of the first two predicates) is sound for EVERY clause
-   outside that trigger. *)
-Theorem C17_like_opt1_sound : forall r cl, quote_trigger cl = false -> eval_clause r (opt1 cl) = eval_clause r cl.
+(* both reorderings separately *)
+Theorem C17_like_opt1_sound : forall r cl, eval_clause r (opt1 cl) = eval_clause r cl.
 Proof. exact opt1_sound. Qed.
 Print Assumptions C17_like_opt1_sound.
 
-(* The trigger: WHERE a LIKE 'p' AND c <> '''x'  (c differs from the 2-character string 'x)
-   becomes   WHERE c <> '' AND a LIKE 'p''x'  - a different predicate on both columns. *)
-Definition like_quote_clause : clause :=
-  [[{| f_negs := 0; f_body := FAtom (ALike 0 "p") |}; {| f_negs := 0; f_body := FAtom (ANe 2 "'x") |}]].
-Definition like_quote_row : row := [Some "p"%string; None; Some "z"%string; None; None].
+Theorem C17_like_opt2_sound : forall r cl, eval_clause r (opt2 cl) = eval_clause r cl.
+Proof. exact opt2_sound. Qed.
+Print Assumptions C17_like_opt2_sound.
 
-Theorem C17_like_quote_refuted :
-  quote_trigger like_quote_clause = true /\
-  print_query like_quote_clause 0 = B "SELECT id FROM r WHERE a LIKE 'p' AND c <> '''x'" /\
-  print_query (optimize like_quote_clause 0) 0 = B "SELECT id FROM r WHERE c <> '' AND a LIKE 'p''x'" /\
-  keeps like_quote_row like_quote_clause = true /\ keeps like_quote_row (optimize like_quote_clause 0) = false.
-Proof. vm_compute. repeat split; reflexivity. Qed.
-Print Assumptions C17_like_quote_refuted.
-
-(* With a top-level OR the second reordering moves the trailing check across the OR:
-   WHERE a LIKE 'x' OR b = '1' AND c <> ''   becomes   WHERE c <> '' AND a LIKE 'x' OR b = '1';
-   the row a='x', b='0', c='' satisfies the original and is dropped by the rewritten query. *)
+(* regression witnesses of the two fixed findings: the clauses that used to be rewritten wrongly
+   are now left alone (OR) resp. not matched (literal starting with a quote) *)
 Definition like_or_clause : clause :=
   [[{| f_negs := 0; f_body := FAtom (ALike 0 "x") |}];
    [{| f_negs := 0; f_body := FAtom (AEq 1 "1") |}; {| f_negs := 0; f_body := FAtom (ANonEmpty 2) |}]].
 Definition like_or_row : row := [Some "x"%string; Some "0"%string; Some ""%string; None; None].
+Definition like_quote_clause : clause :=
+  [[{| f_negs := 0; f_body := FAtom (ALike 0 "p") |}; {| f_negs := 0; f_body := FAtom (ANe 2 "'x") |}]].
+Definition like_quote_row : row := [Some "p"%string; None; Some "z"%string; None; None].
 
-Theorem C17_like_or_refuted :
+Example C17_like_regression_witnesses :
   print_query like_or_clause 0 = B "SELECT id FROM r WHERE a LIKE 'x' OR b = '1' AND c <> ''" /\
-  print_query (optimize like_or_clause 0) 0 = B "SELECT id FROM r WHERE c <> '' AND a LIKE 'x' OR b = '1'" /\
-  keeps like_or_row like_or_clause = true /\ keeps like_or_row (optimize like_or_clause 0) = false.
+  optimize like_or_clause 0 = like_or_clause /\ keeps like_or_row like_or_clause = true /\
+  print_query like_quote_clause 0 = B "SELECT id FROM r WHERE a LIKE 'p' AND c <> '''x'" /\
+  optimize like_quote_clause 0 = like_quote_clause /\ keeps like_quote_row like_quote_clause = true.
 Proof. vm_compute. repeat split; reflexivity. Qed.
-Print Assumptions C17_like_or_refuted.
 
-Example C17_like_no_or_nonvacuous :     (* an AND chain that IS reordered, on a row with a NULL *)
+Example C17_like_sound_nonvacuous :     (* clauses that ARE reordered: an AND chain with a negated OR tree, on a row with a NULL *)
   let ch := [{| f_negs := 0; f_body := FAtom (ALike 0 "%x%") |};
-             {| f_negs := 1; f_body := FParen (TOr (TAtom (AEq 1 "1")) (TAtom (AIsNull 3))) |};
+             {| f_negs := 1; f_body := FAtom (AIsNull 3) |};
              {| f_negs := 0; f_body := FAtom (ANonEmpty 2) |}] in
-  print_query (optimize [ch] 1) 1 = B "SELECT id FROM r WHERE c <> '' AND a LIKE '%x%' AND NOT ((b = '1') OR (d IS NULL)) ORDER BY id" /\
-  eval_clause [Some "axc"%string; None; Some "q"%string; Some "z"%string; None] [ch] = None.
+  print_query (optimize [ch] 1) 1 = B "SELECT id FROM r WHERE c <> '' AND a LIKE '%x%' AND NOT d IS NULL ORDER BY id" /\
+  eval_clause [Some "axc"%string; None; None; Some "z"%string; None] [ch] = None.
 Proof. vm_compute. repeat split; reflexivity. Qed.
+
+Example C17_date_trunc_eq_nonvacuous :
+  0 <= 1704848399400000 /\ subsecond 1704848399400000 < 500000 /\
+  rewritten_value (DT UDay) 1704848399400000 = Some 1704844800000000 /\
+  eval_orig (DT UDay) 1704848399400000 = Some 1704844800000000.
+Proof. vm_compute. repeat split; try reflexivity; intro; discriminate. Qed.
